@@ -64,6 +64,7 @@ func pipen(files []string) string {
 	count := 0
 	for _, path := range files {
 		f := parse(path)
+		expandExprMacros(f, nil)
 		// the functions a body may delegate to: every Pipe*, and unexported helpers whose parameters and result are
 		// all of the form func(X) Y over their type parameters (e.g. `compose`)
 		known := map[string]bool{}
